@@ -63,6 +63,7 @@ def check(ctx, report):
     table_shape(ctx, report)
     eager_decoding(ctx, report)
     absent_directive_defaults(ctx, report)
+    decoded_documents(ctx, report)
     report.rule('C02.R4', 'risky operations on input derived values are guarded or converted')
     deep = Interp(model, deep=True)
     es = Escape(model, deep)
@@ -478,3 +479,91 @@ def swallowing_converter(factory_name):
         res = False
     _SWALLOW[factory_name] = res
     return res
+
+
+# ---- R7: documents decoded by a library (json.loads) have any shape ----------------------------------------------------
+
+DECODERS = ('json.loads', 'json.load')
+NOT_DOCUMENTED = ('TypeError', 'ValueError', 'OverflowError')
+
+
+def decoded_documents(ctx, report):
+    """json.loads returns whatever the sender wrote: an int, a list, null, an object with any members of any type.  In every
+    function that decodes a document while parsing: (a) the result is used as a mapping (subscript, ``in``, iteration,
+    ``**``) only after an ``isinstance(result, dict)`` test whose failure raises, and (b) an object constructed from members
+    of the document is constructed inside a handler that turns TypeError, ValueError and OverflowError (missing argument,
+    attrs instance_of, number conversion) into a parse error."""
+    import ast
+    report.rule('C02.R7', 'a document decoded by json.loads is type-checked before it is used as a mapping, and objects built from its members are built under a converting handler')
+    n = 0
+    for f in ctx.model.functions():
+        if f.module.external:
+            continue
+        calls = [c for c in ast.walk(f.node) if isinstance(c, ast.Call) and ast.unparse(c.func) in DECODERS]
+        if not calls:
+            continue
+        report.touch(f)
+        parents = {}
+        for x in ast.walk(f.node):
+            for ch in ast.iter_child_nodes(x):
+                parents[id(ch)] = x
+        for call in calls:
+            n += 1
+            report.count('C02.R7')
+            st = parents.get(id(call))
+            while st is not None and not isinstance(st, ast.stmt):
+                st = parents.get(id(st))
+            if not (isinstance(st, ast.Assign) and len(st.targets) == 1 and isinstance(st.targets[0], ast.Name)):
+                report.add('C02.R7', f.construct + '@document', 'the decoded document is not bound to a name the analysis can follow')
+                continue
+            doc = st.targets[0].id
+            guard_line = None
+            for x in ast.walk(f.node):
+                if isinstance(x, ast.If) and isinstance(x.test, ast.UnaryOp) and isinstance(x.test.op, ast.Not) and \
+                        isinstance(x.test.operand, ast.Call) and ast.unparse(x.test.operand.func) == 'isinstance' and \
+                        ast.unparse(x.test.operand.args[0]) == doc and 'dict' in ast.unparse(x.test.operand.args[1]).lower() and \
+                        any(isinstance(y, ast.Raise) for y in x.body):
+                    guard_line = x.lineno
+            uses = []
+            for x in ast.walk(f.node):
+                if isinstance(x, ast.Subscript) and isinstance(x.value, ast.Name) and x.value.id == doc:
+                    uses.append(x)
+                elif isinstance(x, ast.Compare) and any(isinstance(o, (ast.In, ast.NotIn)) for o in x.ops) and \
+                        any(isinstance(cm, ast.Name) and cm.id == doc for cm in x.comparators):
+                    uses.append(x)
+                elif isinstance(x, (ast.For, ast.comprehension)) and isinstance(x.iter, ast.Name) and x.iter.id == doc:
+                    uses.append(x.iter)
+                elif isinstance(x, ast.Call) and any(k.arg is None and isinstance(k.value, ast.Name) and k.value.id == doc for k in x.keywords):
+                    uses.append(x)
+                elif isinstance(x, ast.Attribute) and isinstance(x.value, ast.Name) and x.value.id == doc:
+                    uses.append(x)
+            first_use = min((u.lineno for u in uses), default=None)
+            if uses and (guard_line is None or guard_line > first_use):
+                report.add('C02.R7', f.construct + '@document-shape[%s]' % doc,
+                           'the decoded document %s is used as a mapping without a preceding isinstance(%s, dict) test that raises: a document that is a number, '
+                           'a list or null escapes as TypeError' % (doc, doc))
+            # constructions fed from the document
+            for x in ast.walk(f.node):
+                if not (isinstance(x, ast.Call) and any(isinstance(y, ast.Name) and y.id == doc for a in list(x.args) + [k.value for k in x.keywords] for y in ast.walk(a))):
+                    continue
+                fn = ast.unparse(x.func)
+                if fn in DECODERS or fn == 'isinstance' or fn.endswith(('.get', '.items', '.keys', '.values', 'InvalidValue', 'InvalidType', 'ensure_text')):
+                    continue
+                covered = set()
+                p = parents.get(id(x))
+                child = x
+                while p is not None:
+                    if isinstance(p, ast.Try) and any(child is b or any(child is y for y in ast.walk(b)) for b in p.body):
+                        for h in p.handlers:
+                            names = ast.unparse(h.type) if h.type is not None else 'Exception'
+                            if any(isinstance(y, ast.Raise) or (isinstance(y, ast.Call) and ast.unparse(y.func).endswith('raise_from')) for y in ast.walk(h)):
+                                covered |= {e for e in NOT_DOCUMENTED if e in names or 'Exception' in names}
+                    child, p = p, parents.get(id(p))
+                missing = [e for e in NOT_DOCUMENTED if e not in covered]
+                report.count('C02.R7')
+                if missing:
+                    report.add('C02.R7', f.construct + '@document-members[%s]' % fn,
+                               '%s(...) is fed with members of the decoded document outside a handler for %s: a missing member, a member of another JSON type '
+                               'or an unrepresentable number escapes as that exception' % (fn, ', '.join(missing)))
+    if n == 0:
+        report.error('C02.R7: no json.loads call found in the package (anchor moved)')
